@@ -127,19 +127,31 @@ def dec_scalar(j):
     raise ValueError(j)
 
 
-def build(j, rng=None):
-    """JSON -> real Python object of exactly that kind (lazy kinds are registered in SRC)"""
+def build(j, rng=None, memo=None):
+    """JSON -> real Python object of exactly that kind (lazy kinds are registered in SRC).  Equal mutable
+    sub-documents (list, dict) are sometimes one shared object: results and host data are DAGs, not only trees."""
     if is_scalar_j(j):
         return dec_scalar(j)
     pick = (lambda n: rng.randrange(n)) if rng else (lambda n: 0)
+    memo = {} if memo is None else memo
+    shareable = rng is not None and (j.get('m') == 'dict' or j.get('q') == 'list')
+    if shareable:
+        key = json.dumps(j, sort_keys=True)
+        if key in memo and rng.random() < 0.5:
+            return memo[key]
     if 'm' in j:
-        pairs = [(build(k, rng), build(v, rng)) for k, v in j['l']]
-        return dict(pairs) if j['m'] == 'dict' else yutils.FrozenDict(pairs)
+        pairs = [(build(k, rng, memo), build(v, rng, memo)) for k, v in j['l']]
+        o = dict(pairs) if j['m'] == 'dict' else yutils.FrozenDict(pairs)
+        if shareable:
+            memo[key] = o
+        return o
     k = j['q']
-    items = [build(x, rng) for x in j['l']]
+    items = [build(x, rng, memo) for x in j['l']]
     if k == 'tuple':
         return tuple(items)
     if k == 'list':
+        if shareable:
+            memo[key] = items
         return items
     if k == 'set':
         return set(items)
@@ -370,14 +382,21 @@ ATOMS = ['1', "'a'", 'null', 'true', '2.5',
          'generateMany(1, [$ + 1].where($ < 4))', '[1, 2].defaultIfEmpty([3])', 'range(2).defaultIfEmpty([3])',
          '[2, 1].orderBy($)', '[2, 1, 3].orderByDescending($).thenBy($)',     # ordering objects
          '[1, 2, 1].groupBy($)', '[1, 2, 1].groupBy($, $ + 1, $.sum())',     # groupBy results
-         "'a b'.split(' ')", "{a => {b => [1, {c => set(1)}]}}"]
+         "'a b'.split(' ')", "{a => {b => [1, {c => set(1)}]}}",
+         # plain mutable lists / dicts made by the library, many of them in one lazy result
+         '[1, 2].insert(0, 3)', '[1, 2, 3].delete(1)', '[[1], [2]].select($.insert(0, 0))',
+         "['a b', 'c d', 'e f', 'g h'].select($.split(' '))", '[1, 2, 3, 4].select([$].toDict($))',
+         "['a b', 'c d', 'e f'].toDict($, $.split(' '))"]
 TEMPLATES = [('[H, H]', 2), ('[H]', 1), ('{k => H}', 1), ('{k => H, j => H}', 2), ('[H].toSet()', 1), ('set(H, 1)', 1),
              ('dict([[H, 1]])', 1), ('dict([[H, H]])', 2), ('[1, 2].select(H)', 1), ('{a => H}.values()', 1),
              ('{a => H}.items()', 1), ('dict([[H, 1]]).keys()', 1), ('dict([[H, 1]]).items()', 1),
              ('[H].orderBy(1)', 1), ('[1].toDict(H, $)', 1), ('[1].toDict($, H)', 1), ('[H, H].zip([1, 2])', 2),
              ('[H, 1].groupBy(1)', 1), ('[H].where(true)', 1), ('[H].toDict(1).values()', 1), ('[H, [H]]', 2),
              ('list(H, [H])', 2), ('[H].splitAt(0)', 1), ('[H].enumerate()', 1), ('[[H].toSet()].toSet()', 1),
-             ('{a => [H].toSet()}', 1), ('[H].selectMany([$])', 1), ('[H].reverse()', 1)]
+             ('{a => [H].toSet()}', 1), ('[H].selectMany([$])', 1), ('[H].reverse()', 1),
+             # one value in several places of the result (results are DAGs, not only trees)
+             ('let(x => H) -> [$x, $x]', 1), ('let(x => H) -> {p => $x, q => [$x]}', 1), ('let(x => H) -> [[$x], {k => $x}, $x]', 1),
+             ('let(x => H, y => H) -> [$x, $y, $x]', 2), ('[1, 2, 3, 4, 5].select(H)', 1)]
 
 
 def gen_expr(rng, depth):
